@@ -391,4 +391,218 @@ theorem parseHttpList_join (ws : List (Str × Str))
     simp only [Function.comp]
     exact strip_space_tight (hs y (by simp [hy])).2.1
 
+
+/-! ### dicts -/
+
+def KeyOk (k : Str) : Bool := !k.isEmpty && k.all isToken && !k.contains '*'
+
+def dictItemText : Str × Option Str → Str
+  | (k, none) => k
+  | (k, some v) => k ++ '=' :: quoteHeaderValue v
+
+def dictItemImg : Str × Option Str → Str
+  | (k, none) => k
+  | (k, some v) => k ++ '=' :: img v
+
+@[simp] theorem ok_bind {α β : Type} (a : α) (f : α → Except String β) :
+    (Except.ok a >>= f) = f a := rfl
+@[simp] theorem error_bind {α β : Type} (e : String) (f : α → Except String β) :
+    ((Except.error e : Except String α) >>= f) = Except.error e := rfl
+@[simp] theorem pure_eq_ok {α : Type} (a : α) : (pure a : Except String α) = Except.ok a := rfl
+
+theorem mapM_ok {α β : Type} (f : α → Except String β) (g : α → β) (l : List α)
+    (h : ∀ x ∈ l, f x = .ok (g x)) : l.mapM f = .ok (l.map g) := by
+  induction l with
+  | nil => rfl
+  | cons a t ih =>
+    rw [List.mapM_cons, h a (by simp), ih (fun x hx => h x (by simp [hx]))]
+    rfl
+
+theorem keyOk_ne_nil {k : Str} (h : KeyOk k = true) : k ≠ [] := by
+  intro e; subst e; simp [KeyOk] at h
+
+theorem keyOk_all {k : Str} (h : KeyOk k = true) : k.all isToken = true := by
+  simp [KeyOk] at h; simpa using h.1.2
+
+theorem keyOk_no_star {k : Str} (h : KeyOk k = true) : '*' ∉ k := by
+  simp [KeyOk] at h; exact h.2
+
+theorem last!_of_getLast? {k : Str} {l : Char} (h : k.getLast? = some l) : last! k = .ok l := by
+  simp [last!, h]
+
+theorem keyOk_last {k : Str} (h : KeyOk k = true) : ∃ l, k.getLast? = some l ∧ l ≠ '*' ∧ isToken l = true := by
+  have hne := keyOk_ne_nil h
+  cases hl : k.getLast? with
+  | none => simp [List.getLast?_eq_none_iff] at hl; exact absurd hl hne
+  | some l =>
+    refine ⟨l, rfl, ?_, ?_⟩
+    · intro e; subst e; exact keyOk_no_star h (List.mem_of_getLast? hl)
+    · exact (List.all_eq_true.mp (keyOk_all h)) l (List.mem_of_getLast? hl)
+
+theorem dumpHeaderDict_ok (d : Dict (Option Str)) (hk : ∀ x ∈ d, KeyOk x.1 = true) :
+    dumpHeaderDict d = .ok (join ", " (d.map dictItemText)) := by
+  unfold dumpHeaderDict
+  rw [mapM_ok _ dictItemText d]
+  · rfl
+  · intro x hx
+    obtain ⟨k, v⟩ := x
+    cases v with
+    | none => rfl
+    | some v =>
+      obtain ⟨l, hl, hne, _⟩ := keyOk_last (hk _ hx)
+      simp [last!_of_getLast? hl, dictItemText, hne]
+
+
+theorem partition_found {c : Char} {k x : Str} (h : c ∉ k) : partition c (k ++ c :: x) = (k, true, x) := by
+  induction k with
+  | nil => simp [partition]
+  | cons a t ih =>
+    have ha : a ≠ c := fun e => h (by simp [e])
+    have ht : c ∉ t := fun e => h (by simp [e])
+    have := ih ht
+    simp only [partition] at this ⊢
+    simp only [List.cons_append, List.takeWhile_cons, List.dropWhile_cons, bne_iff_ne, ne_eq, ha,
+      not_false_eq_true, ite_true]
+    split at this <;> simp_all
+
+theorem partition_notfound {c : Char} {k : Str} (h : c ∉ k) : partition c k = (k, false, []) := by
+  induction k with
+  | nil => simp [partition]
+  | cons a t ih =>
+    have ha : a ≠ c := fun e => h (by simp [e])
+    have ht : c ∉ t := fun e => h (by simp [e])
+    have := ih ht
+    simp only [partition] at this ⊢
+    simp only [List.takeWhile_cons, List.dropWhile_cons, bne_iff_ne, ne_eq, ha,
+      not_false_eq_true, ite_true]
+    split at this <;> simp_all
+
+theorem isToken_ne_eq {c : Char} (h : isToken c = true) : c ≠ '=' := by
+  have := isToken_notSpecial h
+  apply char_ne_of_toNat_ne
+  simp [notSpecialNat] at this
+  simp; omega
+
+theorem token_tight {k : Str} (h : k.all isToken = true) : Tight k := by
+  rw [List.all_eq_true] at h
+  exact ⟨fun c hc => isToken_not_space (h c (List.mem_of_head? hc)),
+         fun c hc => isToken_not_space (h c (List.mem_of_getLast? hc))⟩
+
+theorem keyOk_no_eq {k : Str} (h : KeyOk k = true) : '=' ∉ k := by
+  intro hm
+  exact isToken_ne_eq ((List.all_eq_true.mp (keyOk_all h)) _ hm) rfl
+
+theorem dictItem_img (k : Str) (v : Option Str) (hk : KeyOk k = true) :
+    dictItem (dictItemImg (k, v)) = .ok (some (k, v)) := by
+  obtain ⟨l, hl, hne, _⟩ := keyOk_last hk
+  have hs : strip k = k := strip_tight (token_tight (keyOk_all hk))
+  have hne' : k.isEmpty = false := by
+    cases k with
+    | nil => exact absurd rfl (keyOk_ne_nil hk)
+    | cons _ _ => rfl
+  cases v with
+  | none =>
+    simp [dictItem, dictItemImg, partition_notfound (keyOk_no_eq hk), hs, hne']
+  | some v =>
+    simp [dictItem, dictItemImg, partition_found (keyOk_no_eq hk), hs, hne',
+      last!_of_getLast? hl, hne, strip_tight (img_tight v), unwrap_img]
+
+
+theorem tight_append {a b : Str} (ha : a ≠ []) (hb : b ≠ [])
+    (h1 : ∀ c, a.head? = some c → Py.isSpace c = false)
+    (h2 : ∀ c, b.getLast? = some c → Py.isSpace c = false) : Tight (a ++ b) := by
+  constructor
+  · intro c hc
+    cases a with
+    | nil => exact absurd rfl ha
+    | cons x t => simp at hc; exact h1 c (by simp [hc])
+  · intro c hc
+    rw [List.getLast?_append] at hc
+    cases hb' : b.getLast? with
+    | none => simp [List.getLast?_eq_none_iff] at hb'; exact absurd hb' hb
+    | some y => rw [hb'] at hc; simp at hc; subst hc; exact h2 _ hb'
+
+theorem dictItem_scans (x : Str × Option Str) (hk : KeyOk x.1 = true) :
+    Scans (dictItemText x) (dictItemImg x) ∧ Tight (dictItemImg x) ∧ dictItemImg x ≠ [] := by
+  obtain ⟨k, v⟩ := x
+  have hall := keyOk_all hk
+  have hne := keyOk_ne_nil hk
+  cases v with
+  | none => exact ⟨scans_token hall, token_tight hall, hne⟩
+  | some v =>
+    refine ⟨?_, ?_, ?_⟩
+    · have := (scans_token hall).append (scans_eq.append (scans_quote v true))
+      simpa [dictItemText, dictItemImg] using this
+    · have : dictItemImg (k, some v) = k ++ ('=' :: img v) := rfl
+      rw [this]
+      apply tight_append hne (by simp) (token_tight hall).1
+      intro c hc
+      have h2 := (img_tight v).2 c
+      apply h2
+      have hin := img_ne_nil v
+      cases hi : img v with
+      | nil => exact absurd hi hin
+      | cons a t => rw [hi] at hc; simpa using hc
+    · simp [dictItemImg, hne]
+
+theorem stripDq_getD_dictItemImg (x : Str × Option Str) (hk : KeyOk x.1 = true) :
+    (stripDq? (dictItemImg x)).getD (dictItemImg x) = dictItemImg x := by
+  obtain ⟨k, v⟩ := x
+  have hall := keyOk_all hk
+  cases k with
+  | nil => exact absurd rfl (keyOk_ne_nil hk)
+  | cons c t =>
+    simp only [List.all_cons, Bool.and_eq_true] at hall
+    have hc := isToken_ne_dq hall.1
+    cases v <;> simp [dictItemImg, stripDq_none_of_head hc]
+
+theorem parseListHeader_dictDump (d : Dict (Option Str)) (hk : ∀ x ∈ d, KeyOk x.1 = true) :
+    parseListHeader (join ", " (d.map dictItemText)) = d.map dictItemImg := by
+  unfold parseListHeader
+  have := parseHttpList_join (d.map fun x => (dictItemText x, dictItemImg x)) (by
+    intro y hy
+    simp only [List.mem_map] at hy
+    obtain ⟨x, hx, rfl⟩ := hy
+    exact dictItem_scans x (hk x hx))
+  simp only [List.map_map, Function.comp_def] at this
+  rw [this, List.map_map]
+  apply List.map_congr_left
+  intro x hx
+  exact stripDq_getD_dictItemImg x (hk x hx)
+
+theorem dictHas_append_single {ν : Type} (acc : Dict ν) (k y : Str) (v : ν) :
+    dictHas (acc ++ [(k, v)]) y = (dictHas acc y || k == y) := by
+  simp [dictHas]
+
+theorem foldlM_dictItems (d acc : Dict (Option Str)) (hk : ∀ x ∈ d, KeyOk x.1 = true)
+    (hnd : (d.map (·.1)).Nodup) (hdis : ∀ x ∈ d, dictHas acc x.1 = false) :
+    (d.map dictItemImg).foldlM dictStep acc = .ok (acc ++ d) := by
+  induction d generalizing acc with
+  | nil => simp
+  | cons x t ih =>
+    obtain ⟨k, v⟩ := x
+    simp only [List.map_cons, List.foldlM_cons]
+    simp only [dictStep]
+    rw [dictItem_img k v (hk (k, v) (by simp))]
+    simp only [ok_bind, pure_eq_ok]
+    have hk0 : dictHas acc k = false := hdis (k, v) (by simp)
+    simp only [dictSet, hk0, Bool.false_eq_true, if_false]
+    simp only [List.map_cons, List.nodup_cons] at hnd
+    rw [ih (acc ++ [(k, v)]) (fun y hy => hk y (by simp [hy])) hnd.2]
+    · simp
+    · intro y hy
+      rw [dictHas_append_single, hdis y (by simp [hy])]
+      simp
+      intro e
+      exact hnd.1 (by rw [e]; exact List.mem_map_of_mem hy)
+
+theorem parseDict_dump_any (d : Dict (Option Str)) (hk : ∀ x ∈ d, KeyOk x.1 = true)
+    (hnd : (d.map (·.1)).Nodup) :
+    (dumpHeaderDict d >>= parseDictHeader) = .ok d := by
+  rw [dumpHeaderDict_ok d hk]
+  simp only [ok_bind, parseDictHeader]
+  rw [parseListHeader_dictDump d hk]
+  have := foldlM_dictItems d [] hk hnd (by intro x _; rfl)
+  simpa using this
+
 end Wz.Http
